@@ -27,6 +27,52 @@ example :
     let s : St := { faces := [⟨1, true, .p2p⟩, ⟨2, true, .p2p⟩], pit := [e], nextTok := 1 }
     (step s (.data 1 { name := [⟨8, [97]⟩, ⟨8, [98]⟩], content := 5 })).2 = [.data 2 [⟨8, [97]⟩, ⟨8, [98]⟩] 5 [9]] := by decide
 
+/-- the invariant holds in every state reachable from an empty PIT by any history of operations -/
+theorem wf_reachable (s0 : St) (h0 : s0.pit = []) (ops : List Op) : WF (run s0 ops) := wf_run s0 h0 ops
+
+/-- Exactness.  In a reachable state (`WF`), for an accepted Data arriving on `f` and any OTHER face `g`:
+    the copies sent to `g` are exactly one per in-record of `g` in the entries the Data satisfies (each
+    satisfied entry counted once), each carrying that in-record's PIT token, scope rules permitting
+    (`dataSends` drops a copy only when `g` does not exist or the /localhost scope rule forbids it). -/
+theorem data_sends_exact (s : St) (hwf : WF s) (f : FaceId) (d : Data) (fc : Face)
+    (hf : faceOf s.faces f = some fc) (hacc : (!fc.isLocal && isLocalhost d.name) = false)
+    (g : FaceId) (hg : g ≠ f) :
+    ∃ ms : List Entry, ms.Nodup ∧ (∀ e, e ∈ ms ↔ e ∈ s.pit ∧ satisfies d e = true) ∧
+      (∀ e ∈ ms, ((e.inRecs.filter (·.face == g)).length ≤ 1)) ∧
+      (step s (.data f d)).2.filter (·.face == g) =
+        ms.flatMap fun e =>
+          dataSends s.faces d.name d.content ((e.inRecs.filter (·.face == g)).map fun r => (r.face, r.tok)) := by
+  refine ⟨matchData s.pit d, matchData_nodup hwf d, mem_matchData_iff hwf d, ?_, ?_⟩
+  · intro e he
+    have hnd := hwf.inNodup e (mem_matchData he).1
+    exact inRecs_face_le_one hnd g
+  · simp only [step]
+    exact onData_sends_filter s f d fc hf hacc g hg
+
+/-- … in particular every face other than the arrival face that holds a pending Interest the Data
+    satisfies and that the scope rule admits does receive its copy, with the token it supplied. -/
+theorem data_reaches_every_pending_face (s : St) (f : FaceId) (d : Data) (fc : Face)
+    (hf : faceOf s.faces f = some fc) (hacc : (!fc.isLocal && isLocalhost d.name) = false)
+    (e : Entry) (he : e ∈ s.pit) (hs : satisfies d e = true) (hwf : WF s)
+    (r : InRec) (hr : r ∈ e.inRecs) (hg : r.face ≠ f) (gf : Face) (hgf : faceOf s.faces r.face = some gf)
+    (hsc : (!gf.isLocal && isLocalhost d.name) = false) :
+    Send.data r.face d.name d.content r.tok ∈ (step s (.data f d)).2 := by
+  obtain ⟨ms, _, hmem, _, heq⟩ := data_sends_exact s hwf f d fc hf hacc r.face hg
+  have h1 : Send.data r.face d.name d.content r.tok ∈ (step s (.data f d)).2.filter (·.face == r.face) := by
+    rw [heq, List.mem_flatMap]
+    refine ⟨e, (hmem e).mpr ⟨he, hs⟩, ?_⟩
+    apply dataSends_of_deliverable (t := (r.face, r.tok)) _ hgf hsc
+    rw [List.mem_map]
+    exact ⟨r, List.mem_filter.mpr ⟨hr, by simp⟩, rfl⟩
+  exact (List.mem_filter.mp h1).1
+
+example :
+    let e1 : Entry := ⟨[⟨8, [97]⟩], true, false, none, 0, [⟨2, 7, 1000, [9]⟩, ⟨3, 8, 1000, []⟩], [], false, some 1000⟩
+    let e2 : Entry := ⟨[⟨8, [97]⟩, ⟨8, [98]⟩], false, false, none, 1, [⟨2, 7, 1000, [1]⟩], [], false, some 1000⟩
+    let s : St := { faces := [⟨1, true, .p2p⟩, ⟨2, true, .p2p⟩, ⟨3, false, .p2p⟩], pit := [e1, e2], nextTok := 2 }
+    (step s (.data 1 { name := [⟨8, [97]⟩, ⟨8, [98]⟩], content := 5 })).2 =
+      [.data 2 [⟨8, [97]⟩, ⟨8, [98]⟩] 5 [1], .data 2 [⟨8, [97]⟩, ⟨8, [98]⟩] 5 [9], .data 3 [⟨8, [97]⟩, ⟨8, [98]⟩] 5 []] := by decide
+
 /-- The pending Interests a Data satisfies are consumed: afterwards no entry it satisfies holds an
     in-record. -/
 theorem data_consumes (s : St) (f : FaceId) (d : Data) (fc : Face)
